@@ -123,6 +123,11 @@ type Challenge struct {
 //   - The authorization_servers field and the other URL fields of the resulting metadata are checked for dangerous URL schemes.
 func GetProtectedResourceMetadata(ctx context.Context, metadataURL, resourceURL string, c *http.Client) (_ *ProtectedResourceMetadata, err error) {
 	defer util.Wrapf(&err, "GetProtectedResourceMetadata(%q)", metadataURL)
+	// The metadata URL may come from a WWW-Authenticate challenge: refuse dangerous
+	// schemes, which checkHTTPSOrLoopback accepts on a local address.
+	if err := checkURLScheme(metadataURL); err != nil {
+		return nil, fmt.Errorf("metadataURL: %v", err)
+	}
 	// Only allow HTTP for local addresses (testing or development purposes).
 	if err := checkHTTPSOrLoopback(metadataURL); err != nil {
 		return nil, fmt.Errorf("metadataURL: %v", err)
